@@ -404,3 +404,106 @@ def test_key(kind: str):
         raise KeyError(kind)
     _KEYS[kind] = jwk
     return jwk
+
+
+def json_decrypt(value: dict, jwk_for, sender_pub=None, any_recipient=False):
+    """RFC 7516 JSON serialization (general or flattened).  jwk_for(merged_header) -> private JWK or None.
+    Every recipient must yield the same CEK (at least one when any_recipient).  -> (plaintext, protected header)"""
+    try:
+        pseg = value["protected"]
+        header = json.loads(b64d(pseg))
+    except (ValueError, KeyError, TypeError):
+        raise RefError("protected header")
+    if not isinstance(header, dict) or not isinstance(header.get("enc"), str) or header["enc"] not in ENC:
+        raise RefError("header")
+    unprotected = value.get("unprotected") or {}
+    if "recipients" in value:
+        recipients = value["recipients"]
+    else:
+        recipients = [{k: value[k] for k in ("header", "encrypted_key") if k in value}]
+    if not recipients:
+        raise RefError("no recipients")
+    aad = pseg.encode()
+    if value.get("aad"):
+        aad += b"." + b64e(b64d(value["aad"])).encode()
+    iv, ct, tag = b64d(value["iv"]), b64d(value["ciphertext"]), b64d(value["tag"])
+    ceks = []
+    for r in recipients:
+        merged = dict(header)
+        merged.update(unprotected)
+        merged.update(r.get("header") or {})
+        try:
+            jwk = jwk_for(merged)
+            if jwk is None:
+                raise RefError("no key")
+            ceks.append(recover_cek(merged, jwk, b64d(r["encrypted_key"]) if r.get("encrypted_key") else b"", header["enc"], tag, sender_pub))
+        except RefError:
+            if not any_recipient:
+                raise
+    if not ceks or any(c != ceks[0] for c in ceks):
+        raise RefError("recipients disagree on the content encryption key")
+    pt = content_decrypt(header["enc"], ceks[0], iv, aad, ct, tag)
+    if header.get("zip") == "DEF":
+        try:
+            pt = zlib.decompress(pt, -15)
+        except zlib.error:
+            raise RefError("deflate")
+    elif "zip" in header:
+        raise RefError("zip")
+    return pt, header
+
+
+def key_manage(alg: str, enc: str, jwk, cek: bytes | None = None, apu: bytes | None = None, apv: bytes | None = None,
+               p2s: bytes = b"saltsalt", p2c: int = 1000, sender_priv=None, tag_for_1pu: bytes | None = None):
+    """Producer side key management (independent of joserfc): -> (header members to add, encrypted key, cek)."""
+    n = enc_cek_len(enc)
+    extra = {}
+    if alg == "dir":
+        return extra, b"", b64d(jwk["k"])
+    rnd = cek if cek is not None else bytes((i * 11 + 3) % 256 for i in range(n))
+    if alg in KW:
+        return extra, aes_key_wrap(b64d(jwk["k"]), rnd), rnd
+    if alg in GCMKW:
+        iv = b"\x07" * 12
+        out = AESGCM(b64d(jwk["k"])).encrypt(iv, rnd, None)
+        return {"iv": b64e(iv), "tag": b64e(out[-16:])}, out[:-16], rnd
+    if alg in RSA_PAD:
+        return extra, pub_native(jwk).encrypt(rnd, RSA_PAD[alg]()), rnd
+    if alg in PBES2:
+        h, kn = PBES2[alg]
+        kek = PBKDF2HMAC(h(), kn, alg.encode() + b"\x00" + p2s, p2c).derive(b64d(jwk["k"]))
+        return {"p2s": b64e(p2s), "p2c": p2c}, aes_key_wrap(kek, rnd), rnd
+    if alg.startswith("ECDH-ES") or alg.startswith("ECDH-1PU"):
+        eph = test_key(jwk["crv"] + "#eph") if (jwk["crv"] + "#eph") in _KEYS else _ephemeral(jwk["crv"])
+        extra["epk"] = public_jwk(eph)
+        if apu is not None:
+            extra["apu"] = b64e(apu)
+        if apv is not None:
+            extra["apv"] = b64e(apv)
+        z = ecdh(eph, public_jwk(jwk))
+        if alg.startswith("ECDH-1PU"):
+            z = z + ecdh(sender_priv, public_jwk(jwk))
+        if "+" not in alg:
+            return extra, b"", concat_kdf(z, enc, n * 8, apu or b"", apv or b"")
+        kw = alg.split("+")[1]
+        kek = concat_kdf(z, alg, KW[kw] * 8, apu or b"", apv or b"", tag_for_1pu)
+        return extra, aes_key_wrap(kek, rnd), rnd
+    raise RefError("alg")
+
+
+def _ephemeral(crv):
+    name = crv + "#eph"
+    if crv in CURVES:
+        curve, L = CURVES[crv]
+        d = int.from_bytes(hashlib.sha512(name.encode()).digest() * 2, "big") % (2 ** (8 * L - 9)) + 2
+        k = ec.derive_private_key(d, curve())
+        pn = k.public_key().public_numbers()
+        jwk = {"kty": "EC", "crv": crv, "x": i2b(pn.x, L), "y": i2b(pn.y, L), "d": i2b(d, L)}
+    else:
+        size = {"X25519": 32, "X448": 56}[crv]
+        seed = (hashlib.sha512(name.encode()).digest() * 2)[:size]
+        k = OKP_PRIV[crv].from_private_bytes(seed)
+        x = k.public_key().public_bytes(serialization.Encoding.Raw, serialization.PublicFormat.Raw)
+        jwk = {"kty": "OKP", "crv": crv, "x": b64e(x), "d": b64e(seed)}
+    _KEYS[name] = jwk
+    return jwk
